@@ -71,9 +71,10 @@ def draw_ll(draw, n_out=None, n_par=None, kinds=EM_KINDS, p_fixed=0.15, positive
             fixed = {str(j): draw(gen.logu(0.05, 5.0)) for j in sub}
         ems.append(dict(kind=k, fixed=fixed))
     times, mode, tied = draw_time_grids(draw, n_out, mode, allow_tied)
-    if allow_empty and n_out >= 2 and gen.chance(draw, 0.15):
-        # outputs that were never measured (empty observation lists), also in front of measured ones
-        k = draw(st.integers(1, n_out - 1))
+    if allow_empty and gen.chance(draw, 0.15 if n_out >= 2 else 0.04):
+        # outputs that were never measured (empty observation lists), also in front of measured ones; now and then no
+        # output was measured at all (an individual of a dataset whose measurements are all missing)
+        k = n_out if (n_out == 1 or gen.chance(draw, 0.15)) else draw(st.integers(1, n_out - 1))
         for o in (list(range(k)) if draw(st.booleans()) else list(draw(st.permutations(list(range(n_out))))[:k])):
             times[o] = []
     obs = []
